@@ -309,6 +309,9 @@ impl NaturalArray<VecKind> for VecArray<usize> {
     }
 
     fn sparse_bincount(&self) -> (VecArray<usize>, VecArray<usize>) {
+        #[cfg(feature = "verif-hooks")]
+        use crate::verif_shim::HashMap;
+        #[cfg(not(feature = "verif-hooks"))]
         use std::collections::HashMap;
 
         // Count occurrences using a HashMap
